@@ -2,15 +2,44 @@
 //!
 //! The harness executes and records; it contains no expected values. Every recorded
 //! history is judged by TLC against the TLA+ specification in /verif/spec.
+//!
+//! `dvh replay` / `dvh explore` are parent processes: the jobs run in a child process
+//! (`dvh child`) whose worker threads stream their events to disk, so that an abort of the
+//! code under test (undefined behaviour, non-unwinding panic, stack overflow) is data: the
+//! parent finds the histories that did not finish, re-runs them one per process, and marks
+//! the ones that abort again with an `abort` event.
 mod explore;
 mod ops;
 mod replay;
 mod world;
 
-use serde_json::Value;
+use serde::{Deserialize, Serialize};
+use serde_json::{json, Value};
 use std::io::{BufRead, Write};
 use std::sync::atomic::{AtomicUsize, Ordering};
 use std::sync::{Arc, Mutex};
+
+#[derive(Debug, Clone, Serialize, Deserialize)]
+#[serde(untagged)]
+enum Job {
+    Explore { explore: ExploreJob },
+    Scenario(Box<serde_json::Value>),
+}
+
+#[derive(Debug, Clone, Serialize, Deserialize)]
+struct ExploreJob {
+    profile: String,
+    seed: u64,
+}
+
+impl Job {
+    fn id(&self) -> String {
+        match self {
+            Job::Explore { explore } => format!("{}-{}", explore.profile, explore.seed),
+            Job::Scenario(v) => v.get("id").and_then(|i| i.as_str()).unwrap_or("?").to_string(),
+        }
+    }
+}
 
 fn arg_value(args: &[String], name: &str) -> Option<String> {
     args.iter().position(|a| a == name).and_then(|i| args.get(i + 1).cloned())
@@ -45,29 +74,76 @@ where
     })
 }
 
-/// Runs jobs `0..n` on `threads` worker threads; results are returned in job order.
-pub fn parallel<F>(n: usize, threads: usize, job: F) -> Vec<Vec<Value>>
-where
-    F: Fn(usize) -> Vec<Value> + Send + Sync + 'static,
-{
+fn install_panic_hook() {
+    std::panic::set_hook(Box::new(|info| {
+        let msg = info.to_string();
+        deltio::verif::emit("panic", |_| json!({"msg": msg.chars().take(300).collect::<String>()}));
+    }));
+}
+
+fn read_jobs(path: &str) -> Vec<Job> {
+    let file = std::fs::File::open(path).expect("open jobs file");
+    let mut jobs = Vec::new();
+    for line in std::io::BufReader::new(file).lines() {
+        let line = line.unwrap();
+        if line.trim().is_empty() {
+            continue;
+        }
+        match serde_json::from_str::<Job>(&line) {
+            Ok(j) => jobs.push(j),
+            Err(e) => {
+                eprintln!("bad job: {}: {}", e, &line[..line.len().min(200)]);
+                std::process::exit(2);
+            }
+        }
+    }
+    jobs
+}
+
+/// Child mode: runs the jobs on `threads` worker threads, thread t streaming to `<out>.t<t>.part`.
+fn child(jobs_path: &str, out: &str, threads: usize) {
+    install_panic_hook();
+    let jobs = Arc::new(read_jobs(jobs_path));
     let next = Arc::new(AtomicUsize::new(0));
-    let results: Arc<Mutex<Vec<Option<Vec<Value>>>>> = Arc::new(Mutex::new(vec![None; n]));
-    let job = Arc::new(job);
     let mut handles = Vec::new();
-    for _ in 0..threads.max(1).min(n.max(1)) {
+    for t in 0..threads.max(1).min(jobs.len().max(1)) {
+        let jobs = Arc::clone(&jobs);
         let next = Arc::clone(&next);
-        let results = Arc::clone(&results);
-        let job = Arc::clone(&job);
+        let path = format!("{}.t{}.part", out, t);
         handles.push(
             std::thread::Builder::new()
-                .stack_size(16 << 20)
-                .spawn(move || loop {
-                    let i = next.fetch_add(1, Ordering::SeqCst);
-                    if i >= n {
-                        break;
+                .stack_size(32 << 20)
+                .spawn(move || {
+                    let file = std::fs::OpenOptions::new().create(true).append(true).open(&path).expect("open part file");
+                    let sink: world::Out = Arc::new(Mutex::new(file));
+                    loop {
+                        let i = next.fetch_add(1, Ordering::SeqCst);
+                        if i >= jobs.len() {
+                            break;
+                        }
+                        let job = jobs[i].clone();
+                        let id = job.id();
+                        let sink2 = Arc::clone(&sink);
+                        let result = match job {
+                            Job::Explore { explore } => {
+                                let profile = explore.profile.clone();
+                                let seed = explore.seed;
+                                run_on_runtime(seed, move || async move { explore::run(seed, &profile, Some(sink2)).await })
+                            }
+                            Job::Scenario(v) => match serde_json::from_value::<replay::Scenario>(*v) {
+                                Ok(scenario) => {
+                                    let seed = scenario.seed;
+                                    run_on_runtime(seed, move || async move { replay::run_scenario(&scenario, Some(sink2)).await })
+                                }
+                                Err(e) => Err(format!("bad scenario: {}", e)),
+                            },
+                        };
+                        if let Err(msg) = result {
+                            // An unwinding panic of the harness task itself: close the history.
+                            world::write_event(&sink, json!({"k": "panic", "i": -2, "t": 0, "msg": msg, "harness": true, "run": id}));
+                            world::write_event(&sink, json!({"k": "end", "i": -2, "t": 0}));
+                        }
                     }
-                    let out = job(i);
-                    results.lock().unwrap()[i] = Some(out);
                 })
                 .unwrap(),
         );
@@ -75,33 +151,138 @@ where
     for h in handles {
         let _ = h.join();
     }
-    let mut results = results.lock().unwrap();
-    results.iter_mut().map(|r| r.take().unwrap_or_default()).collect()
 }
 
-/// Writes histories round-robin into `chunks` ndjson files `<prefix>.<k>.ndjson`.
-pub fn write_chunks(prefix: &str, chunks: usize, histories: Vec<Vec<Value>>) {
+/// Splits part files into histories: (run id, lines, complete?).
+fn read_parts(out: &str) -> Vec<(String, Vec<String>, bool)> {
+    let mut histories = Vec::new();
+    let mut paths = Vec::new();
+    if let Some(dir) = std::path::Path::new(out).parent() {
+        let stem = std::path::Path::new(out).file_name().unwrap().to_string_lossy().to_string();
+        if let Ok(rd) = std::fs::read_dir(if dir.as_os_str().is_empty() { std::path::Path::new(".") } else { dir }) {
+            for e in rd.flatten() {
+                let name = e.file_name().to_string_lossy().to_string();
+                if name.starts_with(&format!("{}.t", stem)) && name.ends_with(".part") {
+                    paths.push(e.path());
+                }
+            }
+        }
+    }
+    paths.sort();
+    for p in paths {
+        let content = std::fs::read(&p).unwrap_or_default();
+        let text = String::from_utf8_lossy(&content);
+        let mut cur: Option<(String, Vec<String>, bool)> = None;
+        for line in text.lines() {
+            // A line cut off by an abort is dropped.
+            let parsed: Option<Value> = serde_json::from_str(line).ok();
+            let Some(v) = parsed else { continue };
+            let k = v.get("k").and_then(|k| k.as_str()).unwrap_or("");
+            if k == "reset" {
+                if let Some(h) = cur.take() {
+                    histories.push(h);
+                }
+                let run = v.get("run").and_then(|r| r.as_str()).unwrap_or("?").to_string();
+                cur = Some((run, vec![line.to_string()], false));
+            } else if let Some(h) = cur.as_mut() {
+                h.1.push(line.to_string());
+                if k == "end" {
+                    h.2 = true;
+                }
+            }
+        }
+        if let Some(h) = cur.take() {
+            histories.push(h);
+        }
+        let _ = std::fs::remove_file(&p);
+    }
+    histories
+}
+
+fn run_child(jobs: &[Job], out: &str, threads: usize) -> bool {
+    let jobs_path = format!("{}.jobs", out);
+    {
+        let mut f = std::io::BufWriter::new(std::fs::File::create(&jobs_path).expect("jobs file"));
+        for j in jobs {
+            serde_json::to_writer(&mut f, j).unwrap();
+            f.write_all(b"\n").unwrap();
+        }
+        f.flush().unwrap();
+    }
+    let exe = std::env::current_exe().expect("current exe");
+    let status = std::process::Command::new(exe)
+        .args(["child", &jobs_path, "--out", out, "--threads", &threads.to_string()])
+        .stderr(std::process::Stdio::null())
+        .status();
+    let _ = std::fs::remove_file(&jobs_path);
+    matches!(status, Ok(s) if s.success())
+}
+
+/// Parent mode: runs all jobs with crash isolation and writes `<out>.<k>.ndjson` chunk files.
+fn parent(jobs: Vec<Job>, out: &str, chunks: usize, threads: usize) {
+    let mut done: Vec<(String, Vec<String>)> = Vec::new();
+    let mut remaining = jobs;
+    let mut aborts = 0usize;
+    let ok = run_child(&remaining, out, threads);
+    let mut finished = std::collections::HashSet::new();
+    for (run, lines, complete) in read_parts(out) {
+        if complete {
+            finished.insert(run.clone());
+            done.push((run, lines));
+        }
+    }
+    remaining.retain(|j| !finished.contains(&j.id()));
+    if !ok || !remaining.is_empty() {
+        // One process per attempt, one thread: whatever history is left open when the child
+        // dies is the one that killed it.
+        while !remaining.is_empty() {
+            let ok = run_child(&remaining, out, 1);
+            let mut finished = std::collections::HashSet::new();
+            for (run, mut lines, complete) in read_parts(out) {
+                if !complete {
+                    aborts += 1;
+                    lines.push(json!({"k": "abort", "i": -3, "t": 0, "run": run}).to_string());
+                    lines.push(json!({"k": "end", "i": -3, "t": 0}).to_string());
+                }
+                finished.insert(run.clone());
+                done.push((run, lines));
+            }
+            let before = remaining.len();
+            remaining.retain(|j| !finished.contains(&j.id()));
+            if remaining.len() == before {
+                // No progress at all (the child died before starting a history).
+                if ok {
+                    break;
+                }
+                let j = remaining.remove(0);
+                aborts += 1;
+                done.push((
+                    j.id(),
+                    vec![
+                        json!({"k": "reset", "i": -1, "t": 0, "run": j.id(), "cap": 0, "seed": 0, "meta": {}}).to_string(),
+                        json!({"k": "abort", "i": -3, "t": 0, "run": j.id()}).to_string(),
+                        json!({"k": "end", "i": -3, "t": 0}).to_string(),
+                    ],
+                ));
+            }
+        }
+    }
     let chunks = chunks.max(1);
     let mut files = (0..chunks)
-        .map(|k| std::io::BufWriter::new(std::fs::File::create(format!("{}.{}.ndjson", prefix, k)).expect("create output")))
+        .map(|k| std::io::BufWriter::new(std::fs::File::create(format!("{}.{}.ndjson", out, k)).expect("create output")))
         .collect::<Vec<_>>();
-    for (i, history) in histories.into_iter().enumerate() {
-        let file = &mut files[i % chunks];
-        for event in history {
-            serde_json::to_writer(&mut *file, &event).unwrap();
-            file.write_all(b"\n").unwrap();
+    done.sort_by(|a, b| a.0.cmp(&b.0));
+    for (i, (_, lines)) in done.iter().enumerate() {
+        let f = &mut files[i % chunks];
+        for l in lines {
+            f.write_all(l.as_bytes()).unwrap();
+            f.write_all(b"\n").unwrap();
         }
     }
     for mut f in files {
         f.flush().unwrap();
     }
-}
-
-fn install_panic_hook() {
-    std::panic::set_hook(Box::new(|info| {
-        let msg = info.to_string();
-        deltio::verif::emit("panic", |_| serde_json::json!({"msg": msg.chars().take(300).collect::<String>()}));
-    }));
+    eprintln!("dvh: {} histories, {} aborted", done.len(), aborts);
 }
 
 fn main() {
@@ -110,67 +291,24 @@ fn main() {
         eprintln!("usage: dvh replay <scenarios.ndjson> --out <prefix> [--chunks K] [--threads N]\n       dvh explore --profile P --seeds A..B --out <prefix> [--chunks K] [--threads N]");
         std::process::exit(2);
     }
-    install_panic_hook();
     let threads = arg_value(&args, "--threads").and_then(|v| v.parse().ok()).unwrap_or(12usize);
     let chunks = arg_value(&args, "--chunks").and_then(|v| v.parse().ok()).unwrap_or(1usize);
     let out = arg_value(&args, "--out").unwrap_or_else(|| "trace".to_string());
     match args[1].as_str() {
+        "child" => child(args.get(2).expect("jobs file"), &out, threads),
         "replay" => {
-            let path = args.get(2).expect("scenario file");
-            let file = std::fs::File::open(path).expect("open scenario file");
-            let mut scenarios = Vec::new();
-            for line in std::io::BufReader::new(file).lines() {
-                let line = line.unwrap();
-                if line.trim().is_empty() {
-                    continue;
-                }
-                match serde_json::from_str::<replay::Scenario>(&line) {
-                    Ok(s) => scenarios.push(s),
-                    Err(e) => {
-                        eprintln!("bad scenario: {}: {}", e, &line[..line.len().min(200)]);
-                        std::process::exit(2);
-                    }
-                }
-            }
-            let scenarios = Arc::new(scenarios);
-            let n = scenarios.len();
-            let histories = parallel(n, threads, {
-                let scenarios = Arc::clone(&scenarios);
-                move |i| {
-                    let scenario = scenarios[i].clone();
-                    let id = scenario.id.clone();
-                    match run_on_runtime(scenario.seed, move || async move { replay::run_scenario(&scenario).await }) {
-                        Ok(events) => events,
-                        Err(msg) => vec![
-                            serde_json::json!({"k": "reset", "i": -1, "t": 0, "run": id, "cap": 0, "seed": 0, "meta": {}}),
-                            serde_json::json!({"k": "panic", "i": 0, "t": 0, "msg": msg, "harness": true}),
-                        ],
-                    }
-                }
-            });
-            write_chunks(&out, chunks, histories);
-            eprintln!("dvh: replayed {} scenarios", n);
+            let jobs = read_jobs(args.get(2).expect("scenario file"));
+            parent(jobs, &out, chunks, threads);
         }
         "explore" => {
             let profile = arg_value(&args, "--profile").unwrap_or_else(|| "mixed".to_string());
             let seeds = arg_value(&args, "--seeds").unwrap_or_else(|| "0..16".to_string());
             let (a, b) = seeds.split_once("..").expect("--seeds A..B");
             let (a, b): (u64, u64) = (a.parse().unwrap(), b.parse().unwrap());
-            let n = (b - a) as usize;
-            let histories = parallel(n, threads, move |i| {
-                let seed = a + i as u64;
-                let profile = profile.clone();
-                let p2 = profile.clone();
-                match run_on_runtime(seed, move || async move { explore::run(seed, &profile).await }) {
-                    Ok(events) => events,
-                    Err(msg) => vec![
-                        serde_json::json!({"k": "reset", "i": -1, "t": 0, "run": format!("{}-{}", p2, seed), "cap": 0, "seed": seed, "meta": {}}),
-                        serde_json::json!({"k": "panic", "i": 0, "t": 0, "msg": msg, "harness": true}),
-                    ],
-                }
-            });
-            write_chunks(&out, chunks, histories);
-            eprintln!("dvh: explored {} seeds", n);
+            let jobs = (a..b)
+                .map(|seed| Job::Explore { explore: ExploreJob { profile: profile.clone(), seed } })
+                .collect();
+            parent(jobs, &out, chunks, threads);
         }
         other => {
             eprintln!("unknown mode {}", other);
